@@ -500,7 +500,11 @@ def run(ctx, name, kind, **kw):
                         ctx.case("copies", key="%s|%s" % (held, how), nontrivial=True)
                         probs = []
                         for first, second, must_wait in (("reader", "writer", True), ("writer", "reader", True), ("writer", "writer", True)):
-                            t2 = mk(twin) if how != "copy" else copy.deepcopy(twin)
+                            try:
+                                t2 = mk(twin) if how != "copy" else copy.deepcopy(twin)
+                            except Exception:
+                                ctx.count("copy_refused.%s" % how)       # copying may be refused at any stage
+                                break
                             box = {}
 
                             def _first(t2=t2, first=first, box=box):
